@@ -126,6 +126,8 @@ harness("split_row_marker_chunks", "row split of chronobox-timestamps on chunks 
         bound="chunks of <= 3 entries", timeout=1500, frag="frag_cb")
 harness("split_row_keeps_all_timestamps", "row split of chronobox-timestamps: every timestamp of a chunk gets a row", False,
         bound="chunks of <= 3 entries", timeout=1500, frag="frag_cb")
+harness("split_row_structure_64", "row split of chronobox-timestamps: rows = the piece without its trailing marker (loop-free statement)", False,
+        bound="pieces of <= 64 entries (capacity of the symbolic array; the code under test has no loop)", timeout=1500, frag="frag_cb")
 
 
 def make_scratch(repo: str, verif: str) -> str:
